@@ -32,13 +32,15 @@ Fixpoint idx_ltb (i j : idx) : bool :=
   | [], _ :: _ => true
   | _, _ => false
   end.
-(* sorted, de-duplicated rows: np.unique(subs, axis=0) *)
-Fixpoint ins_row (i : idx) (l : list idx) : list idx :=
+(* sorted, de-duplicated rows: np.unique(subs, axis=0) — duplicates removed, then insertion sort *)
+Definition idx_dec : forall i j : idx, {i = j} + {i <> j} := list_eq_dec Nat.eq_dec.
+Fixpoint ins_sorted (i : idx) (l : list idx) : list idx :=
   match l with
   | [] => [i]
-  | j :: r => if idx_eqb i j then l else if idx_ltb i j then i :: l else j :: ins_row i r
+  | j :: r => if idx_ltb j i then j :: ins_sorted i r else i :: l
   end.
-Definition uniq_rows (l : list idx) : list idx := fold_right ins_row [] l.
+Definition sort_rows (l : list idx) : list idx := fold_right ins_sorted [] l.
+Definition uniq_rows (l : list idx) : list idx := sort_rows (nodup idx_dec l).
 
 Section Impl.
 Context {V : Type} (v0 : V) (isz : V -> bool).
